@@ -121,8 +121,8 @@ CHECKS = {
  "C10": dict(
   technique="explicit-state exploration: exhaustive enumeration of conversion sequences <= depth over five token pairs on the real msg servers and DeliverTx, backing invariants in every state and an exact-or-nothing step oracle",
   engine="E1",
-  text="Fixture: one coin-origin pair (module-owned ERC20 deployed by RegisterCoin) and four ERC20-origin pairs: an honest ERC20MinterBurnerDecimals, the repository's ERC20MaliciousDelayed and ERC20DirectBalanceManipulation (deployed from their shipped bytecode and registered by RegisterERC20) and a synthesised token that emits Transfer(x, module, n) logs without moving balances. Every sequence <= 3 (thorough 4) over 57 operations: convertCoin / convertERC20 x {1, half, all, all+1}, ERC20 transfer to the module address (hook path), bank send of the paired denomination (wrapper), pair toggle, holder burn. In every state: coin-origin ERC20 supply <= escrowed coins and escrow - supply == holder burns; ERC20-origin coin supply <= tokens escrowed by the module. Every operation moves exactly the amount between the two representations or changes nothing.",
-  note="IBC receive / ack / timeout callbacks are not in the alphabet (no channel fixture). A transfer to the module address of a disabled pair is let through by design and only over-collateralises (observation).",
+  text="Fixture: one coin-origin pair (module-owned ERC20 deployed by RegisterCoin) and four ERC20-origin pairs: an honest ERC20MinterBurnerDecimals, the repository's ERC20MaliciousDelayed and ERC20DirectBalanceManipulation (deployed from their shipped bytecode and registered by RegisterERC20) and a synthesised token that emits Transfer(x, module, n) logs without moving balances. Every sequence <= 3 (thorough 4) over 57 operations: convertCoin / convertERC20 x {1, half, all, all+1}, ERC20 transfer to the module address (hook path), bank send of the paired denomination (wrapper), pair toggle, holder burn. In every state: coin-origin ERC20 supply <= escrowed coins and escrow - supply == holder burns; ERC20-origin coin supply <= tokens escrowed by the module. Every operation moves exactly the amount between the two representations or changes nothing. Part B (IBC legs): a sixth pair is registered for the IBC voucher of the coin-origin denomination; every sequence <= 4 (thorough 5) over 30 operations - ibcSend of {coin-origin, voucher going home, ERC20-origin} x {1, all of coins+tokens, all+1} to a valid or garbage receiver (real MsgTransfer wrapper: ERC20 -> coin before sending), ibcRecv (erc20 middleware: coin -> ERC20 on arrival), ack, timeout (refund, then coin -> ERC20), conversions of both users, pair toggles: sender debited / recipient credited / refunded by exactly the amount across both representations, every rejected step changes nothing, backing invariants in every state.",
+  note="IBC legs loop packets back to the same chain over two channel ends written on ibc-go's localhost connection; one packet in flight at a time. A transfer to the module address of a disabled pair is let through by design and only over-collateralises (observation).",
   design="DESIGN.md §3 C10"),
 }
 
